@@ -28,6 +28,8 @@ def spec_field(spec, key):
     return m.group(1) if m else None
 
 
+_EMBEDDED_ERR = re.compile(r"!(Null|Bounds|ZeroFill|Unmapped|Misaligned|BadMagic|PeMagic|Insanity|Invalid|Overflow|Encoding|Aliasing)\b")
+
 # which property's statement governs an operation family (error kinds named there must match exactly)
 FAMILY_OWNER = {"r2f": "C04", "f2r": "C04", "slice": "C04", "secbytes": "C04", "slice_bytes": "C04", "read_bytes": "C05", "hdrw2": "C07", "read": "C05", "r2v": "C05", "v2r": "C05",
                 "to_view": "C06", "to_file": "C06", "from_bytes": "C07", "hdr": "C07", "hdrw": "C07", "byrva": "C07", "byname": "C07",
@@ -67,6 +69,12 @@ class Prop:
             return "crash"
         if k in ("timeout", "diverge"):
             return "diverge"
+        if k == "ok" and "!" in ans:
+            # error kinds embedded in a dump (`F!Overflow`, `uw=!Bounds`, `!Null`): the same rule as for a
+            # top-level error — a kind the owning statement does not name is compared by class only
+            named = self.named_for(op) if hasattr(self, "named_for") else None
+            if named is not None:
+                ans = _EMBEDDED_ERR.sub(lambda m: m.group(0) if m.group(1) in named else "!E", ans)
         return ans
 
     def judge(self, op, impl, model, spec):
@@ -100,7 +108,11 @@ class Prop:
                     break
         p = REGISTRY.get(owner) if owner else None
         if p is not None and p is not self and getattr(self, "pulls_others", False):
-            return p.named_errors
+            return p.own_named(op)
+        return self.own_named(op)
+
+    def own_named(self, op):
+        """the kinds this property's statement names for the operation (default: the same for all of them)"""
         return self.named_errors
 
     def agree(self, op, impl, model):
